@@ -30,7 +30,7 @@ ASSUMPTIONS = ["an hour's month is its local calendar month in the index's timez
 REQUIRED_REACH = {"post.segment_time_series": 40, "post.bin_features": 64, "post.time_features": 10, "post.occupancy_feature": 10,
                   "post.prediction_feature_processor": 90, "boundary.routing": 8, "clause.partition_rows": 100000,
                   "clause.bin_cells": 10000, "clause.how_values_168": 1}
-REQUIRED_REACH_THOROUGH = {"post.fit_feature_processor": 12, "boundary.real_fit_routing": 1}
+REQUIRED_REACH_THOROUGH = {"post.fit_feature_processor": 12, "boundary.real_fit_routing": 1, "repo_tests.post.segment_time_series": 5, "repo_tests.post.bin_features": 5}
 ENDPOINTS = [30, 45, 55, 65, 75, 90]
 MONTHS = ["jan", "feb", "mar", "apr", "may", "jun", "jul", "aug", "sep", "oct", "nov", "dec"]
 W3 = ["dec-jan-feb", "jan-feb-mar", "feb-mar-apr", "mar-apr-may", "apr-may-jun", "may-jun-jul", "jun-jul-aug", "jul-aug-sep",
@@ -186,11 +186,18 @@ def occ_post(hour_of_week, occupancy, result):
     return True
 
 
-def _exclusive(result, which):
+def _exclusive(result, which, occupancy_lookup=None, segment_name=None):
     oc = [c for c in result.columns if c.endswith("_occupied")]
     un = [c for c in result.columns if c.endswith("_unoccupied")]
     a = (result[oc].fillna(0).to_numpy() != 0).any(axis=1)
     b = (result[un].fillna(0).to_numpy() != 0).any(axis=1)
+    if occupancy_lookup is not None and segment_name in getattr(occupancy_lookup, "columns", []) and "hour_of_week" in result.columns:
+        # the statement is about hours that ARE occupied or unoccupied: a segment whose occupancy is undefined (NaN lookup, as in the
+        # repository's own 'nans' fixtures for a segment without data) is outside it
+        look = {int(k): v for k, v in occupancy_lookup[segment_name].items()}
+        how = pd.to_numeric(result["hour_of_week"], errors="coerce").to_numpy(dtype=float)
+        defined = np.array([(not np.isnan(h)) and (look.get(int(h)) is not None) and not (isinstance(look.get(int(h)), float) and np.isnan(look.get(int(h)))) for h in how])
+        a, b = a & defined, b & defined
     if (a & b).any():
         i = int(np.argmax(a & b))
         add("occupied-and-unoccupied-both-nonzero", "%s: row %s has non-zero occupied and unoccupied bin features" % (which, result.index[i]))
@@ -199,7 +206,7 @@ def _exclusive(result, which):
 
 def pfp_post(segment_name, segmented_data, occupancy_lookup, occupied_temperature_bins, unoccupied_temperature_bins, result):
     I.reach("post.prediction_feature_processor")
-    oc, un = _exclusive(result, "prediction features")
+    oc, un = _exclusive(result, "prediction features", occupancy_lookup, segment_name)
     T = segmented_data["temperature_mean"].reindex(result.index).to_numpy(dtype=float)
     s = result[oc + un].to_numpy(dtype=float).sum(axis=1)
     fin = ~np.isnan(T) & ~np.isnan(s)
@@ -210,7 +217,7 @@ def pfp_post(segment_name, segmented_data, occupancy_lookup, occupied_temperatur
 
 def ffp_post(segment_name, segmented_data, occupancy_lookup, occupied_temperature_bins, unoccupied_temperature_bins, result):
     I.reach("post.fit_feature_processor")
-    _exclusive(result, "fit features")
+    _exclusive(result, "fit features", occupancy_lookup, segment_name)
     return True
 
 
@@ -381,6 +388,7 @@ def gen_cases(tier, seed):
     cases = [dict(kind="calendar", tz=z, zi=i) for i, z in enumerate(zones)] + [dict(kind="bins")]
     if tier == "thorough":
         cases += [dict(kind="fit", tz=z, batch=i, timeout=3000) for i, z in enumerate(["America/Chicago", "Australia/Sydney"])]
+        cases.append(dict(kind="repo-tests", timeout=3000))
     return cases
 
 
@@ -389,6 +397,14 @@ def run_case(spec):
     keys = set()
     if spec["kind"] == "calendar":
         n = calendar_case(spec, keys)
+    elif spec["kind"] == "repo-tests":
+        from vf.pytest_contracts import repo_tests_case
+        res = repo_tests_case(ID, ["tests/test_segmentation.py", "tests/test_features.py", "tests/test_caltrack_hourly.py", "tests/test_caltrack_design_matrices.py"])
+        for v in res["viol"].get(ID, []):
+            VIOL.append(dict(v, where="repository's own tests under contracts"))
+        reach = {"repo_tests." + k: n for k, n in res["reach"].items() if k.startswith("post.")}
+        keys.add("repo-tests")
+        return dict(viol=[dict(v) for v in VIOL], reach=reach, keys=sorted(keys), hist={"kind": "repo-tests"}, events=sum(reach.values()))
     elif spec["kind"] == "bins":
         n = bins_case(spec, keys)
     else:
